@@ -5,7 +5,9 @@
    start_node_at, current_pos, push_node, current_token_index), parser/util.rs (skip, expect_token,
    opt_token, opt_tokens: each pops the next token of the stream, records its lexer error at
    `builder.current_pos()` and pushes the token), parser/error.rs (SyntaxErr::from_lex_err),
-   parser/error_recovery.rs (expect_tokens_recover: the only other producer of errors).
+   parser/error_recovery.rs (expect_tokens_recover), parser/util.rs check_nesting_depth /
+   push_deferred_tokens (commit d10aa14: bail-out on more than MAX_OPEN_NODES open nodes; these three are
+   the only producers of errors).
 
    Panics are explicit: `parents.pop().unwrap()` on an empty stack, `children.drain(first_child..)`
    with `first_child > len`, the two asserts of start_node_at, the assert and the `panic!()` of `end`,
@@ -117,9 +119,10 @@ Definition lex_err_span (e : lexerr) (t : tok) (start : N) : option (N * N) :=
   end.
 
 Record pstate := mkP {
-  p_stream : list ltok;              (* TokenStream (a queue)                      *)
+  p_stream : list ltok;              (* token_stream (a queue)                     *)
   p_builder : bstate;
-  p_errors : list (N * N)            (* spans of `errors`, in order                *)
+  p_errors : list (N * N);           (* spans of `errors`, in order                *)
+  p_deferred : option (list ltok)    (* deferred_tokens (commit d10aa14)           *)
 }.
 
 Inductive pres := POk (s : pstate) | PCrash.
@@ -139,7 +142,7 @@ Definition p_take (s : pstate) : pres :=
                    end
       end in
     match errs, b_push t (p_builder s) with
-    | Some es, BOk b' => POk (mkP rest b' es)
+    | Some es, BOk b' => POk (mkP rest b' es (p_deferred s))
     | _, _ => PCrash
     end
   end.
@@ -161,16 +164,16 @@ Definition peek_is_eof (s : pstate) : bool :=
    branch.  (In the code skipping stops at Eof at the latest; the model allows any `n`.) *)
 Definition p_recover (n : nat) (hit_expected : bool) (s : pstate) : pres :=
   let start := b_text_len (p_builder s) in
-  if peek_is_eof s then POk (mkP (p_stream s) (p_builder s) (p_errors s ++ [(start, start)]))
+  if peek_is_eof s then POk (mkP (p_stream s) (p_builder s) (p_errors s ++ [(start, start)]) (p_deferred s))
   else
     let itl := match p_stream s with (t, _) :: _ => trivia_len (t_trivia t) | [] => 0 end in
     match n with
     | O => if hit_expected then PCrash            (* debug_assert!: only called on an error path *)
-           else POk (mkP (p_stream s) (p_builder s) (p_errors s ++ [(start, start)]))
+           else POk (mkP (p_stream s) (p_builder s) (p_errors s ++ [(start, start)]) (p_deferred s))
     | S _ =>
       match p_take_n n s with
       | POk s' => POk (mkP (p_stream s') (p_builder s')
-                           (p_errors s' ++ [(start + itl, b_text_len (p_builder s'))]))
+                           (p_errors s' ++ [(start + itl, b_text_len (p_builder s'))]) (p_deferred s'))
       | PCrash => PCrash
       end
     end.
@@ -181,30 +184,70 @@ Inductive pop :=
 | PRecover (n : nat) (hit_expected : bool).                       (* expect_tokens_recover *)
 
 Definition lift_b (r : bres) (s : pstate) : pres :=
-  match r with BOk b => POk (mkP (p_stream s) b (p_errors s)) | BCrash => PCrash end.
+  match r with BOk b => POk (mkP (p_stream s) b (p_errors s) (p_deferred s)) | BCrash => PCrash end.
 
-Definition p_step (o : pop) (s : pstate) : pres :=
+(* `recovery.depth()`: the parser pushes/pops its recovery stack together with the builder's
+   `parents` (start_node, start_node_at, end_node), so it is the number of open nodes *)
+Definition p_depth (s : pstate) : nat := length (b_parents (p_builder s)).
+
+(* check_nesting_depth (after start_node / start_node_at): with more than MAX_OPEN_NODES (= `max_open`,
+   1024 in the code) open nodes and input left, the next token is reported as unexpected and the rest
+   of the input is set aside: every production then sees Eof and returns *)
+Definition check_depth (max_open : nat) (s : pstate) : pstate :=
+  if (p_depth s <=? max_open)%nat || peek_is_eof s then s
+  else
+    let errs :=
+      match p_stream s with
+      | (t, _) :: _ =>
+        let start := b_text_len (p_builder s) + trivia_len (t_trivia t) in
+        p_errors s ++ [(start, start + text_len t)]
+      | [] => p_errors s
+      end in
+    mkP [] (p_builder s) errs (Some (p_stream s)).
+
+(* push_deferred_tokens (in end_node, when the root is being closed): the tokens that were set aside
+   replace the (exhausted) stream and are all pushed, `while has_next { skip() }` *)
+Definition push_deferred (s : pstate) : pres :=
+  match p_deferred s with
+  | None => POk s
+  | Some rest => p_take_n (length rest) (mkP rest (p_builder s) (p_errors s) None)
+  end.
+
+Definition p_start (max_open : nat) (r : bres) (s : pstate) : pres :=
+  match lift_b r s with POk s' => POk (check_depth max_open s') | PCrash => PCrash end.
+
+Definition p_end_node (s : pstate) : pres :=
+  match (if (p_depth s =? 1)%nat then push_deferred s else POk s) with
+  | POk s' => lift_b (b_end_node (p_builder s')) s'
+  | PCrash => PCrash
+  end.
+
+Definition p_step (max_open : nat) (o : pop) (s : pstate) : pres :=
   match o with
-  | PStart k => lift_b (b_start_node k (p_builder s)) s
-  | PEnd => lift_b (b_end_node (p_builder s)) s
-  | PStartAt cp k => lift_b (b_start_node_at cp k (p_builder s)) s
+  | PStart k => p_start max_open (b_start_node k (p_builder s)) s
+  | PEnd => p_end_node s
+  | PStartAt cp k => p_start max_open (b_start_node_at cp k (p_builder s)) s
   | PTake => p_take s
   | PRecover n h => p_recover n h s
   end.
 
-Fixpoint p_run (ops : list pop) (s : pstate) : pres :=
+Fixpoint p_run (max_open : nat) (ops : list pop) (s : pstate) : pres :=
   match ops with
   | [] => POk s
-  | o :: r => match p_step o s with POk s' => p_run r s' | PCrash => PCrash end
+  | o :: r => match p_step max_open o s with POk s' => p_run max_open r s' | PCrash => PCrash end
   end.
 
-Definition p_init (ts : list ltok) : pstate := mkP ts b_init [].
+Definition p_init (ts : list ltok) : pstate := mkP ts b_init [] None.
 
-(* `parse`: run the productions (an arbitrary program over the utilities), then `end()` *)
-Definition parse_with (ops : list pop) (ts : list ltok) : option (green * list (N * N) * list ltok) :=
-  match p_run ops (p_init ts) with
+Definition deferred_list (d : option (list ltok)) : list ltok := match d with Some l => l | None => [] end.
+
+(* `parse`: run the productions (an arbitrary program over the utilities), then `end()`.
+   Result: root, error spans, unconsumed stream, tokens still set aside. *)
+Definition parse_with (max_open : nat) (ops : list pop) (ts : list ltok)
+  : option (green * list (N * N) * list ltok * option (list ltok)) :=
+  match p_run max_open ops (p_init ts) with
   | POk s => match b_end (p_builder s) with
-             | Some root => Some (root, p_errors s, p_stream s)
+             | Some root => Some (root, p_errors s, p_stream s, p_deferred s)
              | None => None
              end
   | PCrash => None
@@ -222,6 +265,6 @@ Definition p_recover_noassert (n : nat) (hit_expected : bool) (s : pstate) : pre
   | O, true, false =>
     let start := b_text_len (p_builder s) in
     let itl := match p_stream s with (t, _) :: _ => trivia_len (t_trivia t) | [] => 0 end in
-    POk (mkP (p_stream s) (p_builder s) (p_errors s ++ [(start + itl, start)]))
+    POk (mkP (p_stream s) (p_builder s) (p_errors s ++ [(start + itl, start)]) (p_deferred s))
   | _, _, _ => p_recover n hit_expected s
   end.
